@@ -441,6 +441,7 @@ type Verdict struct {
 	Status int    // Response: status code (default 200); Redirect: code (default 302)
 	Body   string // Response: body
 	URL    string // Redirect: target (default "http://redirect.example/")
+	Header [][2]string // extra header fields {key, value}, repeated keys allowed: Redirect => req.Redirect.Header, Response => added to the response
 }
 
 var (
@@ -630,6 +631,13 @@ func (m *VerifMod) apply(v Verdict, req *bfe_basic.Request) *bfe_http.Response {
 		if req.Redirect.Code == 0 {
 			req.Redirect.Code = 302
 		}
+		req.Redirect.Header = nil
+		if len(v.Header) > 0 {
+			req.Redirect.Header = make(bfe_http.Header)
+			for _, kv := range v.Header {
+				req.Redirect.Header.Add(kv[0], kv[1])
+			}
+		}
 	case bfe_module.BfeHandlerResponse:
 		code := v.Status
 		if code == 0 {
@@ -637,6 +645,9 @@ func (m *VerifMod) apply(v Verdict, req *bfe_basic.Request) *bfe_http.Response {
 		}
 		res := bfe_basic.CreateInternalResp(req, code)
 		res.Header.Set("X-Verif-Mod", "1")
+		for _, kv := range v.Header {
+			res.Header.Add(kv[0], kv[1])
+		}
 		if v.Body != "" {
 			res.Body = ioutil.NopCloser(strings.NewReader(v.Body))
 			res.ContentLength = int64(len(v.Body))
